@@ -499,16 +499,17 @@ def xstack_effect(opcode, opc, oparg: int = 0, jump=None):
     elif opname == "LOAD_ATTR" and version_tuple >= (3, 12):
         return 1 if oparg & 1 else 0
     elif opname == "MAKE_FUNCTION":
-        if version_tuple >= (3, 5):
+        if version_tuple >= (3, 13):
+            # No flags anymore; see SET_FUNCTION_ATTRIBUTE
+            return 0
+        elif version_tuple >= (3, 6):
+            # One item is popped for each of the four flag bits set, and
+            # before 3.11 one more for the qualified name.
+            flagged_items = bin(oparg & 0xF).count("1")
+            return -flagged_items - (1 if version_tuple < (3, 11) else 0)
+        elif version_tuple >= (3, 5):
             if 0 <= oparg <= 10:
-                if version_tuple == (3, 5):
-                    return [-1, -2, -3, -3, -2, -3, -3, -4, -2, -3, -3, -4][oparg]
-                elif (3, 6) <= version_tuple < (3, 11):
-                    return [-1, -2, -2, -3, -2, -3, -3, -4, -2, -3, -3, -4][oparg]
-                elif 0 <= oparg <= 2:
-                    return [0, -1, -1][oparg]
-                else:
-                    return None
+                return [-1, -2, -3, -3, -2, -3, -3, -4, -2, -3, -3, -4][oparg]
             else:
                 return None
     elif opname == "CALL" and version_tuple >= (3, 12):
